@@ -18,7 +18,7 @@ ASSUMPTIONS = ['no schedule dimension', 'queries are issued between steps only (
 PROBES = []
 PLAN = {
   'quick': {'strata': {'queries': 5000}, 'wall_s': 300, 'chunk': 100, 'min_conclusive': 1000},
-  'thorough': {'strata': {'queries': 120000}, 'wall_s': 900, 'chunk': 250, 'min_conclusive': 10000},
+  'thorough': {'strata': {'queries': 120000}, 'wall_s': 900, 'chunk': 250, 'min_conclusive': 1000},
 }
 
 
